@@ -180,8 +180,9 @@ class HeapAnalyser:
     def loc_var(self, n: CNode) -> Optional[str]:
         n = strip(n)
         if n.kind == "DeclRefExpr" and n.props.get("refkind") in ("VarDecl", "ParmVarDecl"):
-            t = n.props.get("type", "") or ""
-            return n.props.get("ref")
+            ref = n.props.get("ref")
+            # a local that happens to be called like a field of the heap is a variable of its own
+            return f"local${ref}" if ref in ("length", "size") else ref
         if n.kind == "MemberExpr" and n.props.get("name") in ("length", "size"):
             return n.props["name"]
         return None
@@ -412,7 +413,7 @@ class HeapAnalyser:
         return None
 
     def _is_int(self, n: CNode) -> bool:
-        t = (strip(n).props.get("type") or "")
+        t = (strip(n).props.get("type") or "").replace("const ", "").replace("volatile ", "").strip()
         return t in ("uint", "unsigned int", "int", "size_t", "unsigned long") or t.startswith("uint")
 
     def ev_assigned(self, rhs: CNode, st: Zone, target: str) -> Form:
@@ -537,6 +538,8 @@ class HeapAnalyser:
             for d in n.children:
                 if d.kind == "VarDecl":
                     name = d.props.get("name")
+                    if name in ("length", "size"):
+                        name = f"local${name}"
                     inits = [c for c in d.children]
                     if inits and self._is_int_type(d.props.get("type")):
                         self.ev_assigned(inits[-1], st, name)
@@ -614,7 +617,8 @@ class HeapAnalyser:
         return st
 
     def _is_int_type(self, t: Optional[str]) -> bool:
-        return (t or "") in ("uint", "unsigned int", "int", "size_t")
+        t = (t or "").replace("const ", "").replace("volatile ", "").strip()
+        return t in ("uint", "unsigned int", "int", "size_t")
 
     def _for_parts(self, n: CNode):
         # clang: ForStmt inner = [init, condvar(empty {}), cond, inc, body]; empty slots are dropped by the converter,
